@@ -1364,6 +1364,7 @@ class Run:
         self.havoc_for_loop(names, objs, domonly, env)
         self.assume(ceval(spec.inv, self.view(env), it))
         self.assume_lemmas(spec, env, it)
+        it.head = View(snap_env(env))
         c = self.truth(self.ev(n.test, env), n.lineno)
         if getattr(spec, 'step_lemma', None) is not None:
             # the body is exactly the statement the lemma unit `step_lemma` is about: preservation of the
@@ -1384,7 +1385,14 @@ class Run:
                 return
             self.loop_stack.pop()
             self.assume_lemmas(spec, env, it)
+            if getattr(spec, 'ghost_update', None) is not None:
+                before = {nm: id(v) for nm, v in env.items() if not nm.startswith('ghost_')}
+                ceval(spec.ghost_update, self.view(env), it)
+                if any(before.get(nm) != id(v) for nm, v in env.items() if not nm.startswith('ghost_')):
+                    raise Unbindable('a ghost update rebinds a program variable')
             self.oblige('loop-preserve', 'loop%d-preserve' % k, n.lineno, ceval(spec.inv, self.view(env), it))
+            if getattr(spec, 'step_post', None) is not None:
+                self.oblige('loop-preserve', 'loop%d-step' % k, n.lineno, ceval(spec.step_post, self.view(env), it))
             if spec.variant is not None:
                 pass
             raise PathEnd()
